@@ -31,6 +31,7 @@ func init() {
 			{ID: "C10.R10", Floor: 2, Run: pointerAssertedFilters, Text: "filters the library recognises by asserting *T (CachedFilter, RelationFilter) are implemented by *T only (go/types: T itself does not implement ecs.Filter), so a T passed by value cannot slip past the guard against double registration"},
 			{ID: "C10.R11", Floor: 1, Run: cacheEntryMoves, Text: "moving cache entries keeps the id → position map exact (= C07.R14): unregistering twice keeps panicking"},
 			{ID: "C10.R12", Floor: 1, Run: zeroIDNotAbsence, Text: "the zero ID never stands for absence in a comparison: no ==/!= on an ID operand that may hold the zero default of a missing option (component id 0 is a real id)"},
+			{ID: "C10.R13", Floor: 2, Run: handleParamsReadOnly, Text: "registered-filter handles are read-only: no function writes through a *CachedFilter parameter; a zeroed handle carries id 0, a live id, so double unregistration would stop panicking"},
 		},
 	})
 }
